@@ -374,10 +374,10 @@ Definition op_ref_check (r : string * string * N * N) (c : N * string * string) 
 (* the 15 assignment operators x 10 target types x existing (value type, form) cells: the linter's verdict
    is the entry of the assignment type table *)
 Theorem lint_ops_eq_ref : forall op lty lint interp p rty form,
-  In (op, lty, lint, interp) obs_ops -> In (p, rty, form) op_cells_existing -> In op assign_ops ->
+  In (op, lty, lint, interp) obs_ops -> In (p, rty, form) op_cells_base -> In op assign_ops ->
   N.testbit lint p = ref_assign op lty rty form \/ gap_covers "op-ref" op lty p = true.
 Proof.
-  assert (H : forallb (fun r => forallb (op_ref_check r) op_cells_existing) obs_ops = true) by (vm_cast_no_check (eq_refl true)).
+  assert (H : forallb (fun r => forallb (op_ref_check r) op_cells_base) obs_ops = true) by (vm_cast_no_check (eq_refl true)).
   intros op lty lint interp p rty form Hr Hc Hop.
   pose proof (forallb2_lift _ _ _ _ _ H _ _ Hr Hc) as C. unfold op_ref_check in C.
   assert (Hm : mem_str op assign_ops = true).
@@ -458,17 +458,17 @@ Proof.
 Qed.
 
 Example lint_ops_eq_ref_witness : exists op lty lint interp p rty form,
-  In (op, lty, lint, interp) obs_ops /\ In (p, rty, form) op_cells_existing /\ In op assign_ops /\
+  In (op, lty, lint, interp) obs_ops /\ In (p, rty, form) op_cells_base /\ In op assign_ops /\
   N.testbit lint p = true /\ ref_assign op lty rty form = true.
 Proof.
-  (* set var.l += <FLOAT variable>  with an INTEGER target: position 3*1+1 = 4 *)
+  (* set var.l += <FLOAT variable>  with an INTEGER target: position 8*1+1 = 9 *)
   destruct (find (fun r => match r with (op, lty, lint, _) =>
-                    String.eqb op "+=" && String.eqb lty "INTEGER" && N.testbit lint 4 end) obs_ops)
+                    String.eqb op "+=" && String.eqb lty "INTEGER" && N.testbit lint 9 end) obs_ops)
     as [[[[op lty] lint] interp]|] eqn:E.
   - pose proof (find_some _ _ E) as [Hin Hb].
     apply andb_true_iff in Hb. destruct Hb as [Hb Hl]. apply andb_true_iff in Hb. destruct Hb as [Ho Ht].
     apply String.eqb_eq in Ho. apply String.eqb_eq in Ht. subst op lty.
-    exists "+=", "INTEGER", lint, interp, 4, "FLOAT", "local".
+    exists "+=", "INTEGER", lint, interp, 9, "FLOAT", "local".
     split; [exact Hin|]. split; [vm_compute; tauto|]. split; [vm_compute; tauto|]. split; [exact Hl|vm_compute; reflexivity].
   - vm_compute in E. discriminate.
 Qed.
